@@ -16,6 +16,7 @@ import GrcVerif.GlyphAttr
 import GrcVerif.PassBits
 import GrcVerif.MainSM
 import GrcVerif.Version
+import GrcVerif.FeatModel
 namespace Grc.Driver
 
 structure State where
@@ -363,6 +364,96 @@ def cmdMainSM (args : List String) : List String :=
     [s!"exit={r.exit} errors={r.errors} complete={r.fontComplete} ops={opsStr}"]
   | _ => ["bad-op"]
 
+def utf16be (s : String) : ByteArray :=
+  s.toList.foldl (fun (b : ByteArray) c =>
+    let n := c.toNat
+    if n < 0x10000 then (b.push (UInt8.ofNat (n / 256))).push (UInt8.ofNat (n % 256))
+    else
+      let v := n - 0x10000
+      let hi := 0xD800 + v / 1024
+      let lo := 0xDC00 + v % 1024
+      (((b.push (UInt8.ofNat (hi / 256))).push (UInt8.ofNat (hi % 256))).push (UInt8.ofNat (lo / 256))).push (UInt8.ofNat (lo % 256))) ByteArray.empty
+
+/-- C16: Feat / Sill / name of the real font against the declarations of the IR. -/
+def cmdC16 (st : State) : Except String (List String) := do
+  let some decls := st.ir.features | throw "IR has no features section"
+  let feat ← (do let t ← getTable st tagFeat; P.run parseFeat t)
+  let sill ← (do let t ← getTable st tagSill; P.run parseSill t)
+  let names ← (do let t ← getTable st tagName; P.run parseName t)
+  let inNames : Array NameRec ← match st.inFont, st.inSfnt with
+    | some ib, some fi =>
+      match fi.find? tagName with
+      | some e => match tableBytes ib e with
+        | some t => P.run parseName t
+        | none => throw "input name table out of bounds"
+      | none => pure #[]
+    | _, _ => throw "no input font loaded (infont)"
+  let usedIds := inNames.toList.map (·.nameId)
+  let maxUsed := usedIds.foldl max 0
+  let first := Ft.firstId maxUsed st.ir.nameStart
+  let mut out : List String := []
+  let hasPlat0 := names.any (·.platform == 0)
+  let resolve := fun (what : String) (labelId : Nat) (labels : List (Nat × String)) => Id.run do
+    let mut errs : List String := []
+    if labels.isEmpty then return errs
+    if labelId < 256 then errs := errs ++ [s!"{what}: label id {labelId} < 256"]
+    for (lang, str) in labels do
+      let want := utf16be str
+      let recs := names.filter (fun r => r.platform == 3 ∧ r.encoding == 1 ∧ r.language == lang ∧ r.nameId == labelId)
+      if !(recs.any (fun r => r.str == want)) then
+        errs := errs ++ [s!"{what}: label id {labelId} does not resolve to \"{str}\" for Microsoft language {lang} (found {recs.size} record(s))"]
+      if hasPlat0 ∧ lang == 1033 then
+        let r0 := names.filter (fun r => r.platform == 0 ∧ r.nameId == labelId)
+        if !(r0.any (fun r => r.str == want)) then
+          errs := errs ++ [s!"{what}: label id {labelId} does not resolve to \"{str}\" in the Unicode platform records"]
+    return errs
+  let mut nLabels := 0
+  for f in decls do
+    for id in f.ids do
+      match feat.feats.toList.filter (·.id == id) with
+      | [e] =>
+        let gotVals := e.settings.toList.map (·.value)
+        let declVals := f.settings.map (·.value)
+        let wantVals := Ft.orderSettings f.dflt declVals
+        -- default first; the remaining settings as a set (the format does not fix their order).
+        -- A feature declared without settings is boolean: the compiler supplies 0 (default) and 1.
+        if declVals.isEmpty then
+          if gotVals.head? != some 0 then
+            out := out ++ [s!"FAIL feature {id}: declared without settings but Feat lists {gotVals} (default must be 0)"]
+        else if gotVals.head? != wantVals.head? ∨ gotVals.mergeSort (· ≤ ·) != wantVals.mergeSort (· ≤ ·) then
+          out := out ++ [s!"FAIL feature {id}: settings in Feat {gotVals}, declared (default first) {wantVals}"]
+        out := out ++ (resolve s!"feature {id}" e.label f.labels).map (fun m => "FAIL " ++ m)
+        nLabels := nLabels + f.labels.length
+        for sd in f.settings do
+          match e.settings.toList.find? (·.value == sd.value) with
+          | some s' =>
+            out := out ++ (resolve s!"feature {id} setting {sd.value}" s'.label sd.labels).map (fun m => "FAIL " ++ m)
+            nLabels := nLabels + sd.labels.length
+          | none => pure ()
+      | l => out := out ++ [s!"FAIL feature id {id} occurs {l.length} times in Feat"]
+  -- every label id used by Feat either existed with that content before or is fresh and >= first
+  let newRecs := names.filter (fun r => !(inNames.any (fun i => i.platform == r.platform ∧ i.encoding == r.encoding ∧ i.language == r.language ∧ i.nameId == r.nameId)))
+  for r in newRecs do
+    if usedIds.contains r.nameId then out := out ++ [s!"FAIL new name record ({r.platform},{r.encoding},{r.language},{r.nameId}) collides with an id used by the input font"]
+    else if r.nameId < first then out := out ++ [s!"FAIL new name record id {r.nameId} below the first allowed id {first}"]
+  -- every label id in Feat resolves to some record (no dangling ids), except the 'no name' marker 32767
+  for e in feat.feats do
+    for lid in e.label :: e.settings.toList.map (·.label) do
+      if lid != 32767 ∧ !(names.any (·.nameId == lid)) then
+        out := out ++ [s!"FAIL feature {e.id}: label id {lid} has no record in the name table"]
+  -- languages
+  for l in st.ir.languages do
+    match sill.toList.filter (·.code == l.code) with
+    | [e] =>
+      let got := e.settings.toList.mergeSort (fun a b => a.1 ≤ b.1)
+      let want := l.values.mergeSort (fun a b => a.1 ≤ b.1)
+      if got != want then out := out ++ [s!"FAIL language {tagStr l.code}: Sill has {got}, declared {want}"]
+    | x => out := out ++ [s!"FAIL language {tagStr l.code} occurs {x.length} times in Sill"]
+  if sill.size != st.ir.languages.length then out := out ++ [s!"FAIL Sill has {sill.size} languages, declared {st.ir.languages.length}"]
+  if out.isEmpty then
+    return [s!"ok features={decls.length} featEntries={feat.feats.size} labels={nLabels} languages={sill.size} firstId={first} newNameRecords={newRecs.size}", "done"]
+  return out ++ ["done"]
+
 def step (st : State) (toks : List String) : IO (State × List String) := do
   match toks with
   | [] => return (st, [])
@@ -450,6 +541,10 @@ def step (st : State) (toks : List String) : IO (State × List String) := do
     match (if req == "default" then some Gen.defaultSilfVersion else req.toNat?), sp.toNat? with
     | some r, some s' => return (st, [s!"{Ver.calcSilfVersion r (c == "1") (k == "1") (p == "1") s'}"])
     | _, _ => return (st, ["bad-op"])
+  | ["c16"] =>
+    match cmdC16 st with
+    | .ok ls => return (st, ls)
+    | .error e => return (st, [s!"error {e}", "done"])
   | ["c06"] =>
     match cmdC06 st with
     | .ok ls => return (st, ls)
